@@ -472,7 +472,7 @@ def rmw_only(chk, F):
                            "%s on Alloc.%s" % (op, f),
                            "operation %s on Alloc.%s is not in the allowed set %s (used must only be changed by "
                            "atomic read-modify-write)" % (name, f, sorted(allowed.get(f, []))))
-    chk.floor("rmw-only", 17, "(atomic operations on Alloc's counters)")
+    chk.floor("rmw-only", 12, "(atomic operations on Alloc's counters: 17 on the pinned tree; a floor guards against vacuity, two release arms merged into one statement are still the same operations)")
 
 
 def accessors(chk, F):
@@ -508,6 +508,27 @@ def accessors(chk, F):
     r = ps[0].ret if len(ps) == 1 else ("none",)
     plain = is_load(r, "max")
     both = r[0] == "call" and r[1].endswith("cmp::Ord::max") and len(r[2]) == 2 and {("max" if is_load(x, "max") else "used" if is_load(x, "used") else None) for x in r[2]} == {"max", "used"}
+    if not both and len(ps) == 2:
+        # the same maximum written as a comparison: `if used > max { used } else { max }` - each load is returned on the side of
+        # the comparison of the two loads on which it is the larger one
+        def side_ok(p):
+            which = "max" if is_load(p.ret, "max") else "used" if is_load(p.ret, "used") else None
+            if which is None:
+                return None
+            for ev in p.events:
+                if ev[0] == "branch" and ev[2][0] == "binop" and ev[2][1] in ("Gt", "Lt", "Ge", "Le"):
+                    a, b = ev[2][2], ev[2][3]
+                    na = "max" if is_load(a, "max") else "used" if is_load(a, "used") else None
+                    nb = "max" if is_load(b, "max") else "used" if is_load(b, "used") else None
+                    if {na, nb} != {"max", "used"}:
+                        continue
+                    taken = ev[3] in (1, True, "true", "otherwise")
+                    a_greater = (ev[2][1] in ("Gt", "Ge")) == taken       # on this side a >= b (or a > b)
+                    larger = na if a_greater else nb
+                    return which if larger == which else None
+            return None
+        sides = {side_ok(p) for p in ps}
+        both = sides == {"max", "used"}
     chk.decide(plain or both, "peak-accessors", "Alloc::get_max", "load-max", fn.where(), "get_max reads max.load()",
                "get_max does not return max.load()")
     # `never less than the largest usage reached since it was last reset`: reset_max stores a snapshot of `used` into `max`, which
